@@ -74,10 +74,10 @@ pub fn show_val(v: Val) -> String {
     }
 }
 
-pub struct Session { pub answers: Vec<Obs> }
+pub struct Session { pub answers: Vec<Obs>, pub ids: std::collections::HashMap<Vec<u8>, usize> }
 
 impl Session {
-    pub fn new(doc: &[u8]) -> Session { provider::initialize_from_msgpack_bytes(doc.to_vec()); Session { answers: vec![] } }
+    pub fn new(doc: &[u8]) -> Session { provider::initialize_from_msgpack_bytes(doc.to_vec()); Session { answers: vec![], ids: std::collections::HashMap::new() } }
     fn scope(&self, s: &Sc) -> Val {
         match s { Sc::Garbage => garbage_val(), Sc::Ans(k) => match self.answers.get(*k) { Some(Obs::Val(v, _)) => *v, _ => garbage_val() } }
     }
@@ -88,9 +88,12 @@ impl Session {
                 Op::Root => { let v = provider::read::shopify_function_input_get(); Obs::Val(v, show_val(v)) }
                 Op::Prop(s, name) => { let v = provider::read::shopify_function_input_get_obj_prop(self.scope(s), name.as_ptr() as usize, name.len()); Obs::Val(v, show_val(v)) }
                 Op::IProp(s, name) => {
-                    let r = provider::shopify_function_intern_utf8_str(name.len());
-                    let idn = (r >> usize::BITS) as usize;
-                    unsafe { std::ptr::copy(name.as_ptr(), (r as usize) as *mut u8, name.len()) };
+                    // a key is interned once per session and its id reused (what applications do), every third use interns it afresh
+                    let reuse = self.ids.get(name).copied().filter(|_| self.answers.len() % 3 != 0);
+                    let idn = match reuse { Some(i) => i, None => {
+                        let r = provider::shopify_function_intern_utf8_str(name.len());
+                        unsafe { std::ptr::copy(name.as_ptr(), (r as usize) as *mut u8, name.len()) };
+                        let i = (r >> usize::BITS) as usize; self.ids.insert(name.clone(), i); i } };
                     let v = provider::read::shopify_function_input_get_interned_obj_prop(self.scope(s), idn); Obs::Val(v, show_val(v)) }
                 Op::Idx(s, i) => { let v = provider::read::shopify_function_input_get_at_index(self.scope(s), *i); Obs::Val(v, show_val(v)) }
                 Op::Key(s, i) => { let v = provider::read::shopify_function_input_get_obj_key_at_index(self.scope(s), *i); Obs::Val(v, show_val(v)) }
@@ -170,7 +173,7 @@ pub fn child_main() {
     }
 }
 
-pub struct Child { proc: std::process::Child, rd: BufReader<std::process::ChildStdout> }
+pub struct Child { proc: std::process::Child, rd: BufReader<std::process::ChildStdout>, wd: crate::Watchdog }
 impl Child {
     pub fn spawn() -> Child {
         let exe = std::env::current_exe().unwrap();
@@ -178,24 +181,29 @@ impl Child {
         let mut proc = std::process::Command::new("sh").arg("-c").arg(format!("ulimit -v 8000000; exec {} reader-child", exe.display()))
             .stdin(std::process::Stdio::piped()).stdout(std::process::Stdio::piped()).stderr(std::process::Stdio::null()).spawn().unwrap();
         let rd = BufReader::new(proc.stdout.take().unwrap());
-        Child { proc, rd }
+        // `sh -c "ulimit ..; exec <child>"`: the pid stays the child's
+        let wd = crate::Watchdog::new(proc.id(), crate::HANG_LIMIT_MS);
+        Child { proc, rd, wd }
     }
     /// Send a job line; collect (ops, observations). A dead child yields `ABORT` for the call in flight.
     pub fn job(&mut self, line: &str) -> (Vec<Op>, Vec<String>, bool) {
         let mut ops = vec![]; let mut obs = vec![];
         if writeln!(self.proc.stdin.as_mut().unwrap(), "{}", line).is_err() { return (ops, obs, true); }
         let _ = self.proc.stdin.as_mut().unwrap().flush();
+        self.wd.arm();
         loop {
             let mut l = String::new();
-            match self.rd.read_line(&mut l) {
-                Ok(0) | Err(_) => { // child died
+            let r = self.rd.read_line(&mut l);
+            self.wd.tick();
+            match r {
+                Ok(0) | Err(_) => { // child died (or was killed by the watchdog: a call that never returns)
                     if ops.len() > obs.len() { obs.push("ABORT".into()); }
                     let _ = self.proc.wait();
                     return (ops, obs, true);
                 }
                 Ok(_) => {
                     let l = l.trim_end();
-                    if l == "DONE" { if ops.len() > obs.len() { obs.push("PANIC".into()); } return (ops, obs, false); }
+                    if l == "DONE" { self.wd.disarm(); if ops.len() > obs.len() { obs.push("PANIC".into()); } return (ops, obs, false); }
                     else if let Some(o) = l.strip_prefix("OP ") { if let Some(op) = parse_op(o) { ops.push(op); } }
                     else if let Some(o) = l.strip_prefix("OB ") { obs.push(o.to_string()); }
                 }
@@ -396,14 +404,15 @@ pub struct Acc {
     pub opk: std::collections::BTreeMap<String, u64>, pub ansk: std::collections::BTreeMap<String, u64>,
     pub classes: std::collections::BTreeMap<String, u64>, pub sizes: std::collections::BTreeMap<&'static str, u64>,
     pub depths: std::collections::BTreeMap<usize, u64>,
+    pub api: bool,
 }
 impl Acc {
-    pub fn new() -> Acc { Acc { evals: 0, id: 0, distinct: Default::default(), opk: Default::default(), ansk: Default::default(), classes: Default::default(), sizes: Default::default(), depths: Default::default() } }
+    pub fn new() -> Acc { Acc { evals: 0, id: 0, distinct: Default::default(), opk: Default::default(), ansk: Default::default(), classes: Default::default(), sizes: Default::default(), depths: Default::default(), api: false } }
     /// Run one document in the child, record it.
     pub fn doc(&mut self, out: &mut Out, pool: &mut Pool, r: &mut Rng, class: &str, doc: &[u8], keys: &[Vec<u8>], wf: bool, nops: usize) { self.doc_with(out, pool, r, class, doc, keys, wf, nops, "-") }
     pub fn doc_with(&mut self, out: &mut Out, pool: &mut Pool, r: &mut Rng, class: &str, doc: &[u8], keys: &[Vec<u8>], wf: bool, nops: usize, prelude: &str) {
         let job = format!("JOB {} {} {} {} {} {} {}", r.next_u64(), nops, stack_for(class), hex(doc),
-                          if keys.is_empty() { "-".to_string() } else { keys.iter().map(|k| hex(k)).collect::<Vec<_>>().join(",") }, if wf { 1 } else { 0 }, prelude);
+                          if keys.is_empty() { "-".to_string() } else { keys.iter().map(|k| hex(k)).collect::<Vec<_>>().join(",") }, if self.api { 2 } else if wf { 1 } else { 0 }, prelude);
         let (ops, obs) = pool.run(&job);
         *self.classes.entry(class.to_string()).or_insert(0) += 1;
         *self.sizes.entry(if doc.len() < 32 { "<32B" } else if doc.len() < 256 { "<256B" } else if doc.len() < 4096 { "<4KiB" } else { ">=4KiB" }).or_insert(0) += 1;
@@ -457,7 +466,9 @@ pub fn run(a: &Args, out: &mut Out) {
         let mut keys = vec![]; collect_keys(&tree, &mut keys);
         *acc.depths.entry(tree.depth()).or_insert(0) += 1;
         let nops = if big { 30 } else { r.range(20, 60) as usize };
+        acc.api = !big && i % 3 == 2;   // a third of the documents is read through the api::Value methods (chains of Value reads)
         acc.doc(out, &mut pool, &mut r, if big { "big" } else { "wf" }, &doc, &keys, true, nops);
+        acc.api = false;
     }
     // mid-size containers of handle-carrying children, long histories that keep using early handles
     let nmid = if thorough { 45 } else { 9 };
